@@ -390,6 +390,11 @@ func (a *NodeActor) handleGossip(ctx vivid.ActorContext, m *GossipMessage) {
 	if a.clusterView == nil {
 		return
 	}
+	// 已优雅退出（Leaving / Exiting）的节点不再参与 Gossip：种子始终是其他节点的 Gossip 目标，
+	// 若退出后仍合并并回传视图，对方会从回包中把本节点重新并入视图，已退出的节点反复“复活”
+	if a.nodeState != nil && (a.nodeState.Status == MemberStatusLeaving || a.nodeState.Status == MemberStatusExiting) {
+		return
+	}
 	if !a.acceptProtocolVersion(m.View.ProtocolVersion) {
 		ctx.Logger().Debug("gossip view rejected: protocol version out of range", log.Any("version", m.View.ProtocolVersion))
 		return
